@@ -54,7 +54,7 @@ D_POST = """proof { let accs = choose|accs: Seq<u128>| #[trigger] try_fold_decid
 UNIT = Unit(
     name="batch", lemma_obs=['lemma_batch_core_perm', 'lemma_marker_kept', 'lemma_faucet_once', 'lemma_markers_batch'], uses="group_core_axioms",
     prelude=["core.rs", "raw.rs", "iter.rs", "crypto.rs", "state_abs.rs", "melvm_abs.rs", "txmethods.rs", "num.rs", "melpow.rs"],
-    lemmas=["sums.rs", "iterlem.rs", "coinsview.rs", "header.rs", "txroot_opaque.rs", "seal_opaque.rs", "tips.rs", "apply.rs", "apply_c04.rs", "microergs.rs", "chaininv.rs", "dosc.rs", "stateinv.rs", "batch_def.rs", "feemul.rs", "seal_def.rs"],
+    lemmas=["sums.rs", "iterlem.rs", "coinsview.rs", "header.rs", "txroot_opaque.rs", "seal_opaque.rs", "tips.rs", "supply.rs", "apply.rs", "supply_batch.rs", "apply_c04.rs", "microergs.rs", "chaininv.rs", "dosc.rs", "stateinv.rs", "batch_def.rs", "supply_thm.rs", "feemul.rs", "seal_def.rs"],
     items=[
         TypeItem(S, "struct", "UnsealedState"),
         TypeItem(S, "enum", "StateError", derive="#[derive(Clone, Copy, PartialEq, Eq, Structural)]"),
@@ -146,6 +146,7 @@ UNIT = Unit(
                             assert forall|t: int| 0 <= t < tq.len() implies #[trigger] tx_env(s0, rel, tq[t]) by {}
                             lemma_rel_consistent(s0, tq, rel); lemma_rel_heights(s0, tq, rel); }"""),
                     Inject(("after_let", "new_stakes"), "let ghost nsm = new_stakes@;"),
+                    Inject(("before", "let mut next_state = create_next_state("), "proof { lemma_supply_hyp(s0, tq, rel); }"),
                     Inject(("after_let", "next_state"), "let ghost ns1 = next_state;"),
                     Inject(("before", "let __iv_new_stakes"), "let ghost ns2 = next_state;"),
                     Inject(("before", "Ok(next_state)"), """proof {
@@ -153,6 +154,10 @@ UNIT = Unit(
                         assert(batch_core_with(s0, tq, next_state, rel, nsm));
                         if markers_ok(s0.coins@.coins) { lemma_markers_batch(s0, tq, next_state, rel, nsm); }
                         lemma_batch_hinv(s0, tq, next_state, rel, nsm);
+                        assert(next_state.coins == ns1.coins);
+                        assert forall|d: Denom| #[trigger] no_issuer(tq, d) implies coins_supply(next_state.coins@.coins, d) + fsum(tq, fee_in(d)) <= coins_supply(s0.coins@.coins, d) by {
+                            assert(coins_supply(ns1.coins@.coins, d) <= coins_supply(s0.coins@.coins, d) + created_tot(tq, tq.len() as int, rel, d) - spent_tot(tq, tq.len() as int, rel, d));
+                            lemma_batch_supply(s0, tq, next_state, rel, nsm, d); }
                         assert(state_inv(next_state)); }""")],
            loops=[Loop(0, binder="it", body_entry="proof { assert(it.seq()[it.index@ as int] == (k, v)); }",
                        invariants=[
